@@ -41,13 +41,33 @@ V5 == Val("str", 0, Dict([x \in {"a"} |-> Dict([y \in {"b"} |-> LInt(5, "5")])])
 V6 == Val("int", 2, Dict([x \in {"a"} |-> Dict([y \in {"b"} |-> Dict([z \in {"x"} |-> LInt(1, "1")])])]), TRUE)
 V7 == Val("int", 0, Dict([x \in {"b"} |-> LInt(1, "1")]), TRUE)                 \* (0, {"b": 1})
 V8 == Val("bool", 0, Dict([x \in {"a"} |-> Dict([y \in {"b"} |-> LInt(-1, "-1")])]), TRUE) \* (False, {"a": {"b": -1}})
-AllVals == <<V1, V2, V3, V4, V5, V6, V7, V8>>
+\* values that hold, at the addressed paths or as data, what could be confused with "absent"
+One(key, x) == [y \in {key} |-> x]
+AIs(x) == Dict(One("a", x))
+ABIs(x) == Dict(One("a", Dict(One("b", x))))
+V9 == Val("none", 0, AIs(LNone), TRUE)                  \* (None, {"a": None})
+V10 == Val("tuple", 0, AIs(LInt(0, "0")), TRUE)         \* ((), {"a": 0})
+V11 == Val("int", 0, AIs(LStr("")), TRUE)               \* (0, {"a": ""})
+V12 == Val("int", 2, ABIs(LNone), TRUE)                 \* (2, {"a": {"b": None}})
+V13 == Val("str", 0, ABIs(LFalse), TRUE)                \* ("", {"a": {"b": False}})
+V14 == Val("none", 0, ABIs(LInt(0, "0")), TRUE)         \* (None, {"a": {"b": 0}})
+V15 == Val("int", 1, ABIs(Empty), TRUE)                 \* (1, {"a": {"b": {}}})
+V16 == Val("int", 1, ABIs(LList), TRUE)                 \* (1, {"a": {"b": []}})
+V17 == Val("int", 1, AIs(LList), TRUE)                  \* (1, {"a": []})
+V18 == Val("int", 1, AIs(LFalse), TRUE)                 \* (1, {"a": False})
+V19 == Val("none", 0, Empty, FALSE)                     \* None
+V20 == Val("tuple", 0, Empty, FALSE)                    \* ()
+V21 == Val("int", 1, ABIs(LStr("")), TRUE)              \* (1, {"a": {"b": ""}})
+AllVals == <<V1, V2, V3, V4, V5, V6, V7, V8, V9, V10, V11, V12, V13, V14, V15, V16, V17, V18, V19, V20, V21>>
 
 \* constant leaves: every outcome combination of the items of a container
 AbsLeaves == {Fn("yes"), Fn("no"), Fn("boom")}
-ConcLeaves == {Str(A1), Str(ABX), Cls("int"), Cls("str"), Fn("pos"), Fn("len"), Fn("boom")}
-SCs == {SC(p, q, r) : p \in {<<>>, A1, AB}, q \in {"isdict", "eq1", "gt0", "hasx"}, r \in BOOLEAN}
+AN == <<"a", "None">>
+ConcLeaves == {Str(A1), Str(ABX), Str(AN), Cls("int"), Cls("str"), Fn("pos"), Fn("len"), Fn("boom"), Fn("isnone")}
+SCs == {SC(p, q, r) : p \in {<<>>, A1, AB}, r \in BOOLEAN,
+                      q \in {"isdict", "eq1", "gt0", "hasx", "isnone", "eq0", "truthy", "always"}}
 SCFew == {SC(AB, "gt0", r) : r \in BOOLEAN}
+SCNone == {SC(AB, "isnone", TRUE), SC(A1, "always", FALSE)}
 
 \* (TLC evaluates every constant definition without parameters at start-up, used or not; the
 \* universes therefore take a dummy parameter and only the one selected by U is built.)
@@ -76,7 +96,7 @@ MCItems3(u) == AbsLeaves \cup
    NotO(SC(AB, "gt0", TRUE), FALSE)}
 MCDepth3(u) == ObjsOver(MCItems3(u), 2)
 \* Filter universes
-FilterAsts(u) == ObjsOver({Fn("len"), Fn("pos")}, 2) \cup SCFew \cup {Sel(Str(A1), TRUE)}
+FilterAsts(u) == ObjsOver({Fn("len"), Fn("pos")}, 2) \cup SCFew \cup SCNone \cup {Sel(Str(A1), TRUE), NotO(SC(AB, "isnone", TRUE), TRUE)}
 
 \* export universes (S2C): concrete leaves, all eight values per specification
 ExDepth1(u) == ObjsOver(ConcLeaves, 2) \cup SCs
@@ -106,10 +126,11 @@ CONSTANTS U,    \* name of the universe of top-level selector objects
 Asts == CASE U = "mc1" -> MCDepth1(U) [] U = "mc2q" -> MCDepth2q(U) [] U = "mc2" -> MCDepth2(U) [] U = "mc3" -> MCDepth3(U)
           [] U = "filter" -> FilterAsts(U)
           [] U = "ex1" -> ExDepth1(U) [] U = "ex2q" -> ExDepth2q(U) [] U = "ex23q" -> ExDepth2q(U) \cup ExDepth3(U) [] U = "ex2" -> ExDepth2(U) [] U = "ex3" -> ExDepth3(U)
-Flows == CASE F = "one" -> {<<V3>>, <<V2>>}
-           [] F = "tiny" -> SeqsUpTo({V2, V3, V4}, 3)
-           [] F = "small" -> SeqsUpTo({V2, V3, V4, V6}, 3)
-           [] F = "big" -> SeqsUpTo({V1, V2, V3, V4, V6, V8}, 4)
+Flows == CASE F = "one" -> {<<V3>>, <<V2>>, <<V12>>}
+           [] F = "two" -> {<<V2>>, <<V12>>}
+           [] F = "tiny" -> SeqsUpTo({V3, V4, V12}, 3)
+           [] F = "small" -> SeqsUpTo({V2, V3, V4, V6, V12}, 3)
+           [] F = "big" -> SeqsUpTo({V1, V2, V3, V4, V6, V8, V12}, 4)
 
 (***************************************************************************)
 (* Operational part.  Build mirrors the constructors:                      *)
@@ -244,7 +265,9 @@ XInit == /\ ast \in Asts /\ flow = AllVals
 XSpec == XInit /\ [][FALSE]_vars
 \* (the eight values themselves are attached to the record of one specification)
 FirstAst == CHOOSE a \in Asts : TRUE
-EmitVec == PrintT(ToJson([ast |-> ast, res |-> [j \in 1..Len(AllVals) |-> Eval(ast, AllVals[j])],
+\* "U": a string leaf walks through a scalar on this value (contains there is C08's subject) - not compared
+EmitVec == PrintT(ToJson([ast |-> ast,
+                          res |-> [j \in 1..Len(AllVals) |-> IF Defined(ast, AllVals[j]) THEN Eval(ast, AllVals[j]) ELSE "U"],
                           vals |-> IF ast = FirstAst THEN AllVals ELSE <<>>]))
 \* Filter behaviours: the machine's output
 EmitFilter == status \in {"done", "raised"} =>
